@@ -82,6 +82,19 @@ def t_chain(n, kind, wrap, arity):
     return t
 
 
+
+
+def t_wraps(n, pattern):
+    """n comment wrappers on ONE node (inside a list): all comments, all trailing, alternating"""
+    t = ('list', [('int', 1), ('int', 2)])
+    for k in range(n):
+        kind = {'c': 'commented', 't': 'trailing', 'a': ('commented' if k % 2 else 'trailing')}[pattern]
+        t = (kind, t, 'w%d' % k)
+    return ('list', [t, ('int', 0)])
+
+
+for _pat in ('c', 't', 'a'):
+    FAMILIES['wrappers-on-one-node-%s' % _pat] = (lambda n, p=_pat: t_wraps(n, p), [2, 4, 8, 16])
 for _kind in ('list', 'tuple', 'dictval', 'call', 'callkw'):
     for _wrap in ('commented', 'trailing', 'both'):
         for _ar in (1, 2):
